@@ -79,6 +79,8 @@ m('C16', G, '\t\t\tif err := me.SetEndpoints(meo.Endpoints); err != nil {\n\t\t\
 m('C06', B, '\t\tsigChan := scRef.stateSignal\n\t\tgb.mu.RUnlock()\n\t\tselect {\n\t\tcase <-ctx.Done():\n\t\t\treturn scRef\n\t\tcase <-ticker.C:\n\t\tcase <-sigChan:\n\t\t}\n\t\tgb.mu.RLock()\n', '\t\tsigChan := scRef.stateSignal\n\t\tselect {\n\t\tcase <-ctx.Done():\n\t\t\tgb.mu.RUnlock()\n\t\t\treturn scRef\n\t\tcase <-ticker.C:\n\t\tcase <-sigChan:\n\t\t}\n', 'the round-robin waiter blocks with the balancer lock read-held')
 m('C06', B, '\t\tselect {\n\t\tcase <-ctx.Done():\n\t\t\treturn scRef\n\t\tcase <-ticker.C:\n\t\tcase <-sigChan:\n\t\t}\n', '\t\tselect {\n\t\tcase <-ctx.Done():\n\t\t\treturn scRef\n\t\tcase <-sigChan:\n\t\tdefault:\n\t\t}\n', 'the round-robin waiter spins (select with default)')
 
+m('C15', G, '\t\tfor _, e := range meo.Endpoints {\n\t\t\tvalidPools[e] = true\n\t\t}\n\t}\n', '\t\tfor _, e := range meo.Endpoints {\n\t\t\tvalidPools[e] = true\n\t\t}\n\t\tif len(validPools) > 8 {\n\t\t\tbreak\n\t\t}\n\t}\n', 'the set of endpoints that keep or get a pool stops growing after eight: later entries lose their pools')
+
 # ---------------- C05
 m('C05', P, '\t\t\tif len(a) > 0 {\n\t\t\t\tboundKey = a[0]\n\t\t\t}', '\t\t\tboundKey = a[0]', 'index of a possibly empty key list (F6)')
 m('C05', P, '\t\t\tif !hasGCPCtx {\n\t\t\t\t// No reply message to get affinity keys from (interceptor not installed).\n\t\t\t\treturn\n\t\t\t}\n', '', 'nil interceptor context dereferenced in the callback (F7)')
